@@ -970,6 +970,7 @@ fc_statements = [
     dict(
         # char *func() +deref(raw)
         name="f_char_*_result_raw",
+        f_module=dict(iso_c_binding=["C_PTR"]),
         arg_decl=[
             "type(C_PTR) :: {f_var}",
         ],
